@@ -1,20 +1,62 @@
 //! C15 — scan-queue dominance rule and sync termination.
 //! (a) `spanning`: exhaustive insertion sequences on the real `SpanningTree` (explicit-state search).
-//! (b) SQLite scan queue + client-loop termination: evaluated on the wallet state graph (wallet.rs).
+//! (b) SQLite scan queue + light-client loop: explored on the wallet state graph (graph.rs) with
+//!     client steps (scan a chunk of the first suggested range, from either end, three chunk sizes)
+//!     interleaved with tip updates and rewinds; every client step must strictly reduce
+//!     the number of unscanned blocks up to the tip (so the loop ends within #blocks steps) and a
+//!     state with nothing suggested must have every block from the birthday to the tip scanned.
 pub mod spanning;
 
-use mc_core::{Args, Run};
-use serde_json::Value;
+use mc_core::{Args, Run, Tier};
+use serde_json::{json, Value};
+
+use crate::graph::{self, Ctx, Op};
+
+fn setup(name: &str, depth: usize, rewinds: u32, wall: f64) -> (crate::universe::Universe, graph::Cfg) {
+    let (u, mut cfg) = crate::c01::setup(name, depth, rewinds, wall);
+    cfg.with_client = true;
+    // The property quantifies over scans of *suggested* ranges, tip updates and rewinds: free scans
+    // of ranges the wallet did not suggest (e.g. beyond the tip it knows) are outside its domain.
+    cfg.free_scans = false;
+    cfg.segment_scans = false;
+    cfg.check_queue = true;
+    (u, cfg)
+}
 
 pub fn replay(kind: &str, case: &Value) -> Result<(), String> {
     if kind.starts_with("spanning") {
         return spanning::replay(kind, case);
     }
-    Err(format!("C15: unknown replay kind {kind}"))
+    if kind != "history" {
+        return Err(format!("C15: unknown replay kind {kind}"));
+    }
+    let name = case["universe"].as_str().unwrap_or("tiny");
+    let ops: Vec<Op> = serde_json::from_value(case["ops"].clone()).map_err(|e| e.to_string())?;
+    let (u, cfg) = setup(name, 99, 9, 1e9);
+    let cx = Ctx { u: &u, cfg: &cfg, fresh: vec![] };
+    graph::replay_history(&cx, &ops, &[&graph::check_queue])
 }
 
 pub fn run(args: &Args) -> i32 {
     let run = Run::new(args, "model_checking");
+    run.set_rule(
+        "(a) explicit-state search of every insertion sequence on the real SpanningTree (see section spanning); (b) explicit-state BFS over the real \
+         SQLite wallet with operations ClientStep(first suggested range, from start|end, chunk 1|half|all), Tip(h), Rewind(h)+switch \
+         branch; states matched on a canonical logical dump + reference model; a state is non-trivial when reached by at least one operation and distinct by that key",
+    );
+    run.assume("the priority of a height is Scanned exactly when its block is in the wallet on the current chain; FoundNote / OpenAdjacent extensions are not constrained beyond the structural invariant");
     spanning::explore(&run);
+    let plan: Vec<(&str, usize, u32, f64)> = match args.tier {
+        Tier::Quick => vec![("tiny", 14, 1, 30.0)],
+        Tier::Thorough => vec![("small", 14, 1, 300.0), ("mid", 12, 1, 400.0)],
+    };
+    for (name, depth, rewinds, wall) in plan {
+        let (u, cfg) = setup(name, depth, rewinds, wall);
+        let cx = Ctx { u: &u, cfg: &cfg, fresh: vec![] };
+        let (stats, failures) = graph::search(&cx, &[&graph::check_queue]);
+        crate::c01::record(&run, name, &u, &cfg, &stats, failures);
+        run.require(stats.outcomes.contains_key("sync:complete") || run.failure_count() > 0, "no fully synced state reached");
+    }
+    run.sample(json!({"universe": "tiny", "ops": [Op::Tip{h: crate::universes::FIRST + 4}, Op::Client{from_end: true, size: 1}, Op::Client{from_end: false, size: 0}]}));
     run.finish(&replay)
 }
